@@ -352,6 +352,9 @@ func ruleINV1(c *Ctx) {
 					}
 					if !lengthBefore(args[info.sizeIdx], recv, ci, parentF, p.Field("ast", "Variable", "ValueNode")) {
 						preciseWhy = fnName(callee) + " is not given the length of the container before the write (ValueNode.Length() of the written variable's container, taken before " + cn + ")"
+						if lengthOperandWhy != "" {
+							preciseWhy += ": " + lengthOperandWhy
+						}
 						return false
 					}
 					for _, n := range info.notes {
@@ -526,6 +529,9 @@ func inv1Append(c *Ctx, m *memoAnchors) {
 			node := lengthOperand(args[info.sizeIdx])
 			if node == nil {
 				why = "the size handed to " + fnName(callee) + " is not the size of the receiver's container"
+				if lengthOperandWhy != "" {
+					why += ": " + lengthOperandWhy
+				}
 				return false
 			}
 			nf, nb := fieldLoad(node)
